@@ -21,7 +21,7 @@ def sval(s):
 
 # which functions may be interpreted constants (terms.CONST_SUFFIX), per property: models that compare values (cache keys)
 # only get them at sinks, where no key is ever computed from the collapsed value
-_CONST_POLICY = {"C09": "sinks", "C13": "off"}   # "off": harness not yet adapted
+_CONST_POLICY = {"C09": "sinks"}   # "off": harness not yet adapted
 
 
 def _const_policy():
